@@ -56,6 +56,8 @@ SWALLOWED = []  # (block, exception kind): a probe handler caught the exception 
 EXC_EXITS = []  # exception kinds that left an event handler
 DEEP = []       # handler entries at a nesting depth that no documented window allows
 BUSY_OK = []    # blocks whose event() returned normally although their handler was running (probe depth > 0)
+COND_TAGS = set()
+COND_BAD = []   # a cond_EVENT callback that ran while its FSM was not locked
 NOT_TOP = []    # a Repeat block forwarded outside of its own handler / re-sent while some block was locked
 REPEAT_INTERVAL_US = 700_000
 
@@ -290,6 +292,20 @@ def make_fsm(i, b, slots, kw):
             kw[f'on_enter_s{k}'] = slots[f'en{k}']
         if slots.get(f'ex{k}'):
             kw[f'on_exit_s{k}'] = slots[f'ex{k}']
+    for ev, (acts, cv) in b.get('conds', {}).items():
+        def cond(ev=ev, acts=acts, cv=cv):
+            # user code inside the handler: the FSM must be locked (and no window is open for it)
+            if not blk._event_active:
+                COND_BAD.append(f"{blk.name}: cond_{ev} called with _event_active=False")
+            try:
+                blk._run(acts)
+            except BaseException:
+                COND_TAGS.add('cond=exc')
+                raise
+            ret = cv[1] if cv[0] == 'c' else edzed.fsm_event_data.get().get(cv[1])
+            COND_TAGS.add(f'cond={bool(ret)}' + (':sends' if acts else ''))
+            return ret
+        kw[f'cond_{ev}'] = cond
     blk = cls(f'b{i}', initdef='s0', on_notrans=slots.get('nt', []), **kw)
     blk.extra = slots['x']
     return blk
@@ -420,6 +436,9 @@ def def_lines(scn):
             tm = '|'.join('-' if t is None else f'{enc_etype(t[0])}@{t[1]}' for t in b['timed'])
             lines.append(f"dispatch blk {i} fsm {b['n']} {tr} {'|'.join(enc_script(x) for x in b['enter'])} "
                          f"{'|'.join(enc_script(x) for x in b['exit'])} {tm}")
+            for ev, (acts, cv) in b.get('conds', {}).items():
+                lines.append(f"dispatch cond {i} {ev} {enc_script(acts)} "
+                             + (f"c{int(bool(cv[1]))}" if cv[0] == 'c' else f"k{cv[1]}"))
         elif b['kind'] == 'repeat':
             lines.append(f"dispatch blk {i} repeat {b['dest']} n:{b['etype']} {'n' if b['count'] is None else b['count']}")
         elif b['kind'] == 'outfunc':
@@ -521,6 +540,8 @@ def run_impl(scn):
     del EXC_EXITS[:]
     del DEEP[:]
     del NOT_TOP[:]
+    del COND_BAD[:]
+    COND_TAGS.clear()
 
     def build_circuit(circuit):
         ctx['blocks'] = build(scn)
@@ -545,7 +566,9 @@ def run_impl(scn):
         del DEEP[:]
         not_top = list(NOT_TOP)
         del NOT_TOP[:]
-        steps.append({'not_top': not_top, 'deep': deep, 'op': op, 'res': res, 'items': items, 'refused': refused, 'busy_ok': busy_ok, 'swallowed': swallowed, 'exc_exits': exc_exits,
+        cond_bad = list(COND_BAD)
+        del COND_BAD[:]
+        steps.append({'cond_bad': cond_bad, 'not_top': not_top, 'deep': deep, 'op': op, 'res': res, 'items': items, 'refused': refused, 'busy_ok': busy_ok, 'swallowed': swallowed, 'exc_exits': exc_exits,
                       'active': [b.name for b in blocks if b._event_active],
                       'error': kind_of(sim.circuit.error),
                       'maxdepth': max((getattr(b, '_c11_max', 0) for b in blocks), default=0)})
@@ -663,7 +686,7 @@ def run_impl(scn):
         if s['op']['kind'] == 'resend':
             tags.append('resend=' + s['res'].split()[0] + ('' if s['res'].startswith('ret') else ':' + s['res'].split()[1])
                         + (':refused' if s['refused'] != '-' else ''))
-    tags = sorted(set(tags))
+    tags = sorted(set(tags) | COND_TAGS)
     return {'lines': lines, 'trace': trace, 'steps': steps, 'tags': tags, 'nontrivial': entered > 0}
 
 
@@ -680,6 +703,9 @@ def oracle(scn, res):
         if deep:
             out.append({'clause': 'no_nested_handling',
                         'what': f"step {i} {op}: handler entered while the block was handling an event: {deep}"})
+        if s['cond_bad']:
+            out.append({'clause': 'cond_callback_runs_locked',
+                        'what': f"step {i} {op}: {s['cond_bad']}"})
         if s['not_top']:
             out.append({'clause': 'repeat_resend_is_top_level',
                         'what': f"step {i} {op}: {s['not_top']}"})
@@ -745,8 +771,8 @@ def cnt(mod=None, initdef=0):
     return {'kind': 'counter', 'mod': mod, 'initdef': initdef}
 
 
-def fsm(n, trans, enter=None, exit_=None, timed=None):
-    return {'kind': 'fsm', 'n': n, 'trans': trans, 'timed': timed or [None] * n,
+def fsm(n, trans, enter=None, exit_=None, timed=None, conds=None):
+    return {'kind': 'fsm', 'n': n, 'trans': trans, 'timed': timed or [None] * n, 'conds': conds or {},
             'enter': enter or [[] for _ in range(n)], 'exit': exit_ or [[] for _ in range(n)]}
 
 
@@ -761,6 +787,22 @@ def rpt(dest, etype='put', count=None):
 def seeds():
     E = lambda d, name, data=None: ['ext', d, name, data or {}]
     R = lambda d, et, data=None: ['raw', d, et, data or {}]
+    # FSM cond_EVENT callbacks: constant false = rejected (nothing locked, no abort); the value of a data item;
+    # a callback sending an event that loops back to the FSM (through another block / directly): refused;
+    # a callback inside the chained-transition window (entry action sends e1, cond_e1 false: request not parked)
+    yield {'blocks': [fsm(2, [['e0', None, 1], ['e1', None, 0]], conds={'e0': [[], ['c', False]], 'e1': [[], ['k', 'value']]})],
+           'edges': [], 'ops': [E(0, 'e0'), R(0, ['g', 1]), E(0, 'e1'), E(0, 'e1', {'value': 0}), E(0, 'e1', {'value': 2})]}
+    yield {'blocks': [fsm(2, [['e0', None, 1], ['e1', None, 0]], conds={'e0': [[['s', 0, 1]], ['c', True]]}), inp()],
+           'edges': [[0, 'x', 1, N('put'), []], [1, 'o', 0, N('e1'), ['u']]], 'ops': [E(0, 'e0')]}
+    yield {'blocks': [fsm(2, [['e0', None, 1], ['e1', None, 0]], conds={'e0': [[['e', 0, N('e1')]], ['c', True]]})],
+           'edges': [], 'ops': [E(0, 'e0'), E(0, 'e1')]}
+    yield {'blocks': [fsm(2, [['e0', None, 1], ['e1', None, 0]], conds={'e0': [[['t', 0, None]], ['c', False]]})],
+           'edges': [[0, 'x', 0, N('e1'), []]], 'ops': [E(0, 'e0'), E(0, 'e1')]}
+    yield {'blocks': [fsm(2, [['e0', 0, 1], ['e1', 1, 0]], enter=[[], [['e', 0, N('e1')]]],
+                          conds={'e1': [[], ['k', 'value']]}), cnt()],
+           'edges': [], 'ops': [E(0, 'e0'), E(0, 'e1', {'value': 1}), E(0, 'e0', {'value': 1})]}
+    yield {'blocks': [fsm(2, [['e0', None, 1], ['e1', None, 0]], conds={'e1': [[['r']], ['c', True]]}, timed=[None, [N('e1'), 1]])],
+           'edges': [], 'ops': [E(0, 'e0'), ['tick'], E(0, 'e0')]}
     A = ['adv']
     # Repeat: forwards from inside its handler, re-sends from its main task (count 2: two repetitions)
     yield {'blocks': [rpt(1, 'put', 2), inp()], 'edges': [], 'ops': [E(0, 'put', {'value': 1}), A, A, A, E(0, 'zz'), E(0, 'put', {'value': 2}), A]}
@@ -1021,7 +1063,23 @@ def rand_circuit(rng):
                     elif r < 0.9:
                         acts.append(['r'])
                 return acts
-            blocks.append({'kind': 'fsm', 'n': ns, 'trans': trans, 'timed': timed,
+            conds = {}
+            for ev in evs:
+                if rng.random() < 0.35:
+                    acts = []
+                    if rng.random() < 0.45:
+                        r = rng.random()
+                        if r < 0.65 and nextra[i]:
+                            acts.append(['s' if rng.random() < 0.7 else 't', rng.randrange(nextra[i]),
+                                         rng.choice(VALUES + [None, None])])
+                        elif r < 0.75:
+                            acts.append(['r'])
+                        elif r < 0.9:
+                            d = rng.randrange(n)
+                            acts.append(['e', d, rand_etype(rng, kinds[d], 0, nst[d], rtype[d])])
+                    q = rng.random()
+                    conds[ev] = [acts, ['c', True] if q < 0.4 else ['c', False] if q < 0.65 else ['k', 'value']]
+            blocks.append({'kind': 'fsm', 'n': ns, 'trans': trans, 'timed': timed, 'conds': conds,
                            'enter': [fscript(True) for _ in range(ns)], 'exit': [fscript(False) for _ in range(ns)]})
         elif k == 'repeat':
             blocks.append(rpt(rdest[i], rtype[i], rng.choice([None, None, 0, 1, 2])))
